@@ -233,6 +233,46 @@ fn mirror_nav<'a>(root: &'a SpV, path: &Path) -> Option<&'a SpV> {
     }
     Some(cur)
 }
+/// a table without a span of its own (created by dotted keys, implied by longer headers) is handed
+/// to serde with the range its entries cover: every child range and key range lies inside it
+fn spanless_containment(m: &SpV, model: &Node, at: &mut Vec<String>) -> Result<(), String> {
+    match (&m.v, model) {
+        (SV::Tbl(entries), Node::Table(t)) => {
+            let spanless = matches!(t.kind, model::TblKind::Dotted | model::TblKind::Implicit);
+            for (k, child) in entries {
+                if let (true, Some(ps)) = (spanless, &m.span) {
+                    for (what, cs) in [("value", &child.span), ("key", &k.span)] {
+                        if let Some(cs) = cs {
+                            if cs.start < ps.start || cs.end > ps.end {
+                                return Err(format!("the {what} range {cs:?} of `{}` is not inside the range {ps:?} delivered for its span-less parent table `{}`", k.name, at.join(".")));
+                            }
+                        }
+                    }
+                }
+                if let Some(cm) = t.get(&k.name) {
+                    at.push(k.name.clone());
+                    spanless_containment(child, cm, at)?;
+                    at.pop();
+                }
+            }
+            Ok(())
+        }
+        (SV::Arr(a), Node::Array(ma)) => {
+            for (c, cm) in a.iter().zip(ma.iter()) {
+                spanless_containment(c, cm, at)?;
+            }
+            Ok(())
+        }
+        (SV::Arr(a), Node::Aot(ma)) => {
+            for (c, cm) in a.iter().zip(ma.iter()) {
+                spanless_containment(c, &Node::Table(cm.clone()), at)?;
+            }
+            Ok(())
+        }
+        _ => Ok(()),
+    }
+}
+
 fn mirror_key<'a>(root: &'a SpV, path: &Path) -> Option<&'a KeyProbe> {
     let (last, parent) = path.split_last()?;
     let p = mirror_nav(root, &parent.to_vec())?;
@@ -451,6 +491,8 @@ fn prop(t: &mut Tape, st: &mut Stats) -> Result<(), Failure> {
             }
         }
     }
+    spanless_containment(&mirror, &Node::Table(r.expected.clone()), &mut vec![]).map_err(|m| fail("serde-containment", &r, m))?;
+    st.class(if has_spanless_table(&r.expected) { "serde-containment.spanless" } else { "serde-containment" });
     // --- twins: wrapping in Spanned never changes success or value
     let plain: Result<BTreeMap<String, toml::Value>, _> = toml::from_str(text);
     let spanned: Result<BTreeMap<String, serde_spanned::Spanned<toml::Value>>, _> = toml::from_str(text);
@@ -726,7 +768,7 @@ fn no_spans(item: &Item) -> Result<(), String> {
 
 pub fn run(args: Args) -> ! {
     let mut rep = Report::new("C14", args.tier, args.seed);
-    rep.rule = "tree-first documents with multi-byte characters, BOM, CRLF and decoration around every token; the renderer's source map gives the byte range of every key, value, header section by construction. Checked on ImDocument: Value/Item/Key::span() equal the ranges, bounds and char boundaries, lexical containment, slices re-parse to the same value/key/table entries, array-of-tables and root spans, no span survives into_mut(); through serde: a mirror type probing for a span at every position reports the same ranges and value; twin types with/without Spanned succeed together. non-trivial = a value preceded by a multi-byte character and surrounded by whitespace on both sides; distinct by text".into();
+    rep.rule = "tree-first documents with multi-byte characters, BOM, CRLF and decoration around every token; the renderer's source map gives the byte range of every key, value, header section by construction. Checked on ImDocument: Value/Item/Key::span() equal the ranges, bounds and char boundaries, lexical containment, slices re-parse to the same value/key/table entries, array-of-tables and root spans, no span survives into_mut(); through serde: a mirror type probing for a span at every position reports the same ranges and value, and the range delivered for a table without a span of its own contains the ranges of all its entries; twin types with/without Spanned succeed together. non-trivial = a value preceded by a multi-byte character and surrounded by whitespace on both sides; distinct by text".into();
     rep.assumptions = vec!["expected ranges come from the harness' renderer".into()];
     KNOWN_F10.store(rep.is_known("F10"), std::sync::atomic::Ordering::Relaxed);
     if let Some(p) = &args.replay {
